@@ -547,7 +547,7 @@ impl Database {
             .connections
             .write()
             .expect("Error getting the db.connections.lock to decrement");
-        *connections.get_mut() = *connections.get_mut() - 1;
+        *connections.get_mut() = connections.get_mut().saturating_sub(1);
     }
 
     pub fn inc_connections(&self) {
